@@ -38,7 +38,7 @@ func (e *Engine) cmpSeq(what string, got []atree.Value, want []MV) error {
 		return e.viol("%s yields %d elements, expected %d", what, len(got), len(want))
 	}
 	for i := range got {
-		if err := cmpValue(got[i], want[i], fmt.Sprintf("%s[%d]", what, i), CmpOpts{CheckVID: true}); err != nil {
+		if err := cmpValue(got[i], want[i], fmt.Sprintf("%s[%d]", what, i), e.co()); err != nil {
 			return e.viol("%v", err)
 		}
 	}
@@ -119,7 +119,7 @@ func (e *Engine) checkArrayIterators(n *Node, salt uint64) error {
 		if err != nil {
 			return e.viol("%s Get(%d) failed: %v", name, i, err)
 		}
-		if err := cmpValue(v, want[i], fmt.Sprintf("%s Get(%d)", name, i), CmpOpts{CheckVID: true}); err != nil {
+		if err := cmpValue(v, want[i], fmt.Sprintf("%s Get(%d)", name, i), e.co()); err != nil {
 			return e.viol("%v", err)
 		}
 		if c := nodeOf(want[i]); c != nil && c.HasHandle() {
@@ -211,7 +211,7 @@ func (e *Engine) checkMapIterators(n *Node) error {
 				return e.viol("%s: position %d holds key %s, canonical order expects %s", what, i, short(ck), short(order[i]))
 			}
 			if g.v != nil {
-				if err := cmpValue(g.v, n.Ents[ck].V, fmt.Sprintf("%s value of %s", what, short(ck)), CmpOpts{CheckVID: true}); err != nil {
+				if err := cmpValue(g.v, n.Ents[ck].V, fmt.Sprintf("%s value of %s", what, short(ck)), e.co()); err != nil {
 					return e.viol("%v", err)
 				}
 			}
@@ -223,7 +223,7 @@ func (e *Engine) checkMapIterators(n *Node) error {
 			return e.viol("%s yields %d values, expected %d", what, len(got), len(order))
 		}
 		for i, g := range got {
-			if err := cmpValue(g, n.Ents[order[i]].V, fmt.Sprintf("%s[%d]", what, i), CmpOpts{CheckVID: true}); err != nil {
+			if err := cmpValue(g, n.Ents[order[i]].V, fmt.Sprintf("%s[%d]", what, i), e.co()); err != nil {
 				return e.viol("%v", err)
 			}
 		}
@@ -343,7 +343,7 @@ func (e *Engine) checkMapIterators(n *Node) error {
 				}
 			}
 			if v != nil {
-				if err := cmpValue(v, n.Ents[order[i]].V, fmt.Sprintf("%s iterator value %d", name, i), CmpOpts{CheckVID: true}); err != nil {
+				if err := cmpValue(v, n.Ents[order[i]].V, fmt.Sprintf("%s iterator value %d", name, i), e.co()); err != nil {
 					return e.viol("%v", err)
 				}
 			}
